@@ -148,6 +148,7 @@ func newC09World(seed uint64, scheme string, withLeaver bool) (*c09World, error)
 // capture runs f with an interceptor that records (and swallows) every gossip packet of the given kind; returns the first.
 func (w *c09World) capture(kind string, f func() error) (*pdkg.GossipPacket, error) {
 	var got *pdkg.GossipPacket
+	var lastSeen time.Time
 	var mu sync.Mutex
 	w.bus.Intercept = func(m *Msg, p *pdkg.GossipPacket) *pdkg.GossipPacket {
 		if m.Kind == kind {
@@ -155,6 +156,7 @@ func (w *c09World) capture(kind string, f func() error) (*pdkg.GossipPacket, err
 			if got == nil {
 				got = proto.Clone(p).(*pdkg.GossipPacket)
 			}
+			lastSeen = time.Now()
 			mu.Unlock()
 			return nil
 		}
@@ -172,7 +174,17 @@ func (w *c09World) capture(kind string, f func() error) (*pdkg.GossipPacket, err
 		}
 		time.Sleep(5 * time.Millisecond)
 	}
-	time.Sleep(20 * time.Millisecond)
+	// the sender gossips to every recipient from goroutines of its own: keep swallowing until none of its copies has shown up
+	// for 150 ms and nothing is being delivered (a copy that slipped through later would change the victim behind our back)
+	for i := 0; i < 600; i++ {
+		mu.Lock()
+		quiet := got == nil || time.Since(lastSeen) > 150*time.Millisecond
+		mu.Unlock()
+		if quiet && w.bus.InFlight.Load() == 0 {
+			break
+		}
+		time.Sleep(5 * time.Millisecond)
+	}
 	w.bus.Intercept = nil
 	mu.Lock()
 	defer mu.Unlock()
